@@ -286,6 +286,8 @@ def write_evidence(prop, tier, seed, mod, cresults, obligations, wall, rc, viola
     )
     if extra_info:
         cov['extra'] = extra_info.get('summary')
+        if extra_info.get('thorough'):
+            cov['thorough_self_checks'] = extra_info['thorough']
     ev = dict(property_id=prop, tier=tier, seed=seed, level=level, coverage=cov,
               assumptions=list(getattr(mod, 'ASSUMPTIONS', [])), wall_s=round(wall, 2), violations=len(violations))
     ev['coverage']['not_covered'] = list(getattr(mod, 'NOT_COVERED', []))
